@@ -27,6 +27,7 @@ TECHNIQUE = 'runtime reference-model monitor: exact-relation oracle on compariso
 CASES = {'quick': 14000, 'thorough': 170000}
 _BIG = 0.0              # share of precisions drawn from the 2500..3500 list (thorough tier only)
 KINDS = ['cmp-mpf', 'cmp-int', 'cmp-float', 'cmp-sametop', 'cmp-equal', 'cmp-special', 'cmp-bigint', 'eq-complex',
+         'cmp-ctxprec-float', 'cmp-ctxprec-int', 'cmp-ctxprec-mpf',
          'hash-int', 'hash-float', 'hash-complex', 'hash-mpc-real', 'hash-minus1', 'hash-special', 'hash-hugeexp']
 HP = Q._HP
 
@@ -102,9 +103,19 @@ def check_cmp(mp, rec, cell, a, ty, v, braw=None):
         braw = v
     path = cmp_path(a, braw) if braw is not None else 'other'
     nontrivial = c is None or c == 0 or path in ('same-leading-bit-subtraction', 'zero-or-special', 'same-exponent')
-    rec.case((cell, X.rid(a), ty, repr(v) if ty != 'mpf' else X.rid(v)), nontrivial, cls='%s/%s/%s' % (cell, ty, path))
-    case = {'kind': 'cmp', 'a': a, 'type': ty, 'b': v if ty == 'mpf' else repr(v), 'braw': braw}
+    ctxp = CTX['prec']
+    longer = (a[3] > ctxp) or (braw is not None and braw[3] > ctxp)
+    rec.case((cell, X.rid(a), ty, repr(v) if ty != 'mpf' else X.rid(v), ctxp), nontrivial or longer,
+             cls='%s/%s/%s%s' % (cell, ty, path, '/operand-longer-than-context-prec' if longer else ''))
+    case = {'kind': 'cmp', 'a': a, 'type': ty, 'b': v if ty == 'mpf' else repr(v), 'braw': braw, 'ctx_prec': ctxp}
     rec.sample(case)
+    if c is not None:
+        # trichotomy monitor: exactly one of <, ==, > (independent of the oracle's value)
+        for g, side in ((got, 'mpf op y'), (got_r, 'y op mpf')):
+            if (g['<'] is True) + (g['=='] is True) + (g['>'] is True) != 1 or g['<='] is not (g['<'] or g['==']) \
+                    or g['>='] is not (g['>'] or g['==']) or g['!='] is (g['==']):
+                rec.violation('C05/trichotomy/%s/%s' % (ty, path), 'comparison operators are mutually inconsistent (%s)' % side, case,
+                              g, 'exactly one of <, ==, >')
     for g, e, side in ((got, exp, 'mpf op y'), (got_r, exp_r, 'y op mpf')):
         bad = [k for k in e if g[k] is not e[k]]
         if bad:
@@ -222,9 +233,65 @@ def neg(t):
 
 
 # ---------------------------------------------------------------------------------------
+CTX = {'prec': 53}
+
+
 def run_case(mp, rec, r, i):
+    """every case runs under its own context precision (comparisons, equality and hashes must not depend on it):
+    half of the cases at 1..60 bits, the rest from the shared precision list"""
     kind = KINDS[i % len(KINDS)]
     p = G.pick_prec(r, big=(_BIG > 0 and r.random() < _BIG))
+    if kind.startswith('cmp-ctxprec') or r.random() < 0.5:
+        p = r.randint(1, 60)
+    old = mp.prec
+    CTX['prec'] = p
+    try:
+        mp.prec = p
+        _run_case(mp, rec, r, kind, p)
+    finally:
+        mp.prec = old
+
+
+def ctx_neighbours(r, v_ex, p):
+    """raw reals within one rounding step of the exact value v at the context precision p: its roundings in the five modes,
+    and the p-bit values one ulp beyond them"""
+    t = Q.round_to(v_ex, p, r.choice(G.MODES))
+    if not t[1]:
+        return t
+    k = r.random()
+    if k < 0.6:
+        return t
+    # one unit in the last place (of the p-bit format) away
+    sign, man, exp, bc = t
+    sh = p - bc
+    m2 = (int(man) << sh) + r.choice([-1, 1]) if sh >= 0 else int(man) + r.choice([-1, 1])
+    if m2 <= 0:
+        return t
+    return Q.canon(sign, m2, exp - max(sh, 0))
+
+
+def _run_case(mp, rec, r, kind, p):
+    if kind == 'cmp-ctxprec-float':
+        # a float with a full 53-bit mantissa (more bits than the context precision) against mpf values next to it
+        b = Q.canon(r.randint(0, 1), G.mantissa(r, 53, r.choice(['rand', 'ones', 'pow2p1', 'lowones'])), r.randint(-60, 60) - 52)
+        f = X.as_float(b)
+        a = b if r.random() < 0.15 else ctx_neighbours(r, Q.from_raw(b), p)
+        check_cmp(mp, rec, kind, a, 'float', f, b)
+        return
+    if kind == 'cmp-ctxprec-int':
+        nb = r.choice([p + 1, p + 2, 2 * p + 3, 64, 65, 200])
+        n = r.choice([-1, 1]) * (G.mantissa(r, nb) << r.choice([0, 0, 1, 5]))
+        nr = Q.canon(1 if n < 0 else 0, abs(n), 0)
+        a = nr if r.random() < 0.15 else ctx_neighbours(r, Q.from_int(n), p)
+        check_cmp(mp, rec, kind, a, 'int', n, nr)
+        return
+    if kind == 'cmp-ctxprec-mpf':
+        b = Q.canon(r.randint(0, 1), G.mantissa(r, r.choice([p + 1, p + 2, 2 * p + 1, 3 * p + 5, 120])), G.exponent(r, p, wild=False))
+        a = b if r.random() < 0.15 else ctx_neighbours(r, Q.from_raw(b), p)
+        if r.random() < 0.5:
+            a, b = b, a
+        check_cmp(mp, rec, kind, a, 'mpf', b)
+        return
     if kind == 'cmp-mpf':
         a = G.raw_real(r, p, special=0.02)
         b = G.raw_real(r, p, special=0.02)
@@ -467,6 +534,8 @@ def replay(case, rec):
     def raw(t):
         return (int(t[0]), unjson_int(t[1]), unjson_int(t[2]), int(t[3]))
     if c.get('kind') == 'cmp':
+        CTX['prec'] = int(c.get('ctx_prec', 53))
+        mp.prec = CTX['prec']
         a = raw(c['a'])
         ty = c['type']
         if ty == 'mpf':
